@@ -20,8 +20,11 @@ class Has:
     """Joint guard spec: the branch condition's slice contains all the given leaf patterns.
     A pattern may be a list of alternatives."""
 
-    def __init__(self, *pats, name=None):
+    def __init__(self, *pats, name=None, within=None):
         self.pats = pats
+        # patterns that must be matched by the conditions of the branch edges that dominate the
+        # guard (the other conjuncts of a compound `a && b` condition / the enclosing match arm)
+        self.within = within
         self.name = name or "has(%s)" % ", ".join(map(str, pats))
 
     def call_pats(self):
@@ -416,6 +419,12 @@ class Guards:
                 out.append((b, passing, dict(ops=ops)))
             else:
                 if spec.matches_expr(e, self.ctx, self.env):
+                    if getattr(spec, "within", None):
+                        ls = set()
+                        for s2, lab, d in self.body.edge_conditions(b):
+                            ls |= self.ctx.leaves(self.body.switch_discr_expr(s2), self.env)
+                        if not has_all(ls, spec.within):
+                            continue
                     out.append((b, passing, {}))
                 elif self.via_callee(e, spec):
                     out.append((b, passing, dict(via_callee=True)))
